@@ -9,6 +9,12 @@ func checks() []check {
 		{ID: "C01", Level: "model_checking", Parts: []part{
 			{Name: "pool-interleavings", Pkg: "pkg/eni", Run: "^TestVerifC01$", Sets: []string{"weave"}, Weave: []string{"pkg/eni"}, ShardsQ: 16, ShardsT: 16},
 		}},
+		{ID: "C04", Level: "model_checking", Parts: []part{
+			{Name: "rpc-interleavings", Pkg: "daemon", Run: "^TestVerifC04$", Sets: []string{"weave"}, Weave: []string{"daemon", "pkg/eni", "pkg/storage"}, ShardsQ: 9, ShardsT: 16},
+		}},
+		{ID: "C09", Level: "model_checking", Parts: []part{
+			{Name: "gc-store-vs-pods", Pkg: "daemon", Run: "^TestVerifC09$", Sets: []string{"weave"}, Weave: []string{"daemon", "pkg/eni", "pkg/storage"}, Netns: true, ShardsQ: 12, ShardsT: 16},
+		}},
 		{ID: "C06", Level: "model_checking", Parts: []part{
 			{Name: "pool-quota-monitor", Pkg: "pkg/eni", Run: "^TestVerifC06$", Sets: []string{"weave"}, Weave: []string{"pkg/eni"}, ShardsQ: 16, ShardsT: 16},
 		}},
